@@ -324,13 +324,17 @@ def _hyp_worker(args):
 
 
 def _phase_worker(args):
-    modname, fname, task = args
+    modname, fname, task, idx = args
     try:
         env.init()
         mod = importlib.import_module(modname)
         fn = getattr(mod, fname)
+        zone = LOCAL_ZONES[(idx + 1) % len(LOCAL_ZONES)] if os.environ.get("VERIF_ZONES", "1") != "0" else None
+        apply_zone(zone)
         res = fn(task)
         assert isinstance(res, Stats)
+        if res.failure and zone:
+            res.failure["tz"] = zone
         return res
     except Inconclusive as e:
         st = Stats()
@@ -477,7 +481,7 @@ def main(argv=None):
         phases = []
         if hasattr(mod, "extra_phases"):
             for name, fname, ptasks in mod.extra_phases(tier, seed, jobs):
-                phases.append((name, [(modname, fname, t) for t in ptasks]))
+                phases.append((name, [(modname, fname, t, i) for i, t in enumerate(ptasks)]))
         ctx = multiprocessing.get_context("fork")
         with ctx.Pool(processes=jobs, maxtasksperchild=1) as pool:
             asyncs = [("hypothesis", pool.map_async(_hyp_worker, tasks, chunksize=1))]
